@@ -167,6 +167,20 @@ def pixel_case(ctx, rng, k):
         return
     d = angdist(np.asarray(lons), np.asarray(lats), flon, flat)
     c0, c1 = (4, 404) if res == "gac" else (24, 2024)
+    # at the 51 tie-point columns the interpolated arrays return the file's words (scaled), to 1e-6 deg - for both families
+    # (before fix 2d07dda the POD tie points were scaled and interpolated in single precision: up to 3e-5 .. 2e-3 deg off)
+    sc_ = 128.0 if fam == "pod" else 1e4
+    tcols = np.array([c0 + (8 if res == "gac" else 40) * j for j in range(51)])
+    rows = [i for i in range(n) if i != bad_line]
+    wl_, wa_ = np.round(b.lons * sc_) / sc_, np.round(b.lats * sc_) / sc_
+    dl_ = np.abs(np.asarray(lons, dtype=float)[np.ix_(rows, tcols)] - wl_[rows])
+    dl_ = np.minimum(dl_, 360.0 - dl_)
+    da_ = np.abs(np.asarray(lats, dtype=float)[np.ix_(rows, tcols)] - wa_[rows])
+    worst = float(np.nanmax(np.maximum(dl_, da_))) if rows else 0.0
+    ctx.extra["worst_tie_column_deviation_interpolated_deg"] = max(ctx.extra.get("worst_tie_column_deviation_interpolated_deg", 0.0), worst)
+    if rows and (np.isnan(dl_).any() or np.isnan(da_).any() or worst > 1e-6):
+        ctx.violation("%s, interpolation on: the tie-point columns differ from the file's earth-location words by up to %.2e deg "
+                      "(limit 1e-6)" % (fmt, worst), payload, cls="tie-columns-interpolated")
     if bad_line is not None:
         step = 8 if res == "gac" else 40
         cols = [c0 + step * j for j in range(51) if j != bad_tie]
